@@ -189,6 +189,23 @@ __CPROVER_assigns (psf->error, __CPROVER_object_upto (psf->syserr, sizeof (psf->
 __CPROVER_ensures ((!psf->virtual_io && __CPROVER_return_value == -1) ==> (psf->error != 0 || (psf->file.mode != SFM_READ && psf->file.mode != SFM_WRITE && psf->file.mode != SFM_RDWR) || psf->file.mode == SFM_WRITE)) /*@C15.failed_length_query_sets_error*/
 ;
 
+int vin_fmode ;
+int psf_fopen (SF_PRIVATE *psf)
+__CPROVER_requires (__CPROVER_is_fresh (psf, sizeof (SF_PRIVATE)) && psf->file.mode == vin_fmode && g_opened == 0)
+__CPROVER_assigns (psf->error, psf->file.filedes, __CPROVER_object_upto (psf->syserr, sizeof (psf->syserr)), g_opened, verif_errno_cell)
+__CPROVER_ensures (__CPROVER_return_value == psf->error) /*@C09.open_reports_its_error*/
+__CPROVER_ensures ((vin_fmode != SFM_READ && vin_fmode != SFM_WRITE && vin_fmode != SFM_RDWR) ==> (__CPROVER_return_value == SFE_BAD_OPEN_MODE && psf->file.filedes == -1 && g_opened == 0)) /*@C09.bad_open_mode_refused*/ /*@C14.bad_open_mode_refused*/
+__CPROVER_ensures (__CPROVER_return_value == 0 ==> (psf->file.filedes >= 0 && g_opened == 1)) /*@C14.successful_open_records_the_descriptor*/ /*@C16.successful_open_records_the_descriptor*/
+__CPROVER_ensures (__CPROVER_return_value != 0 ==> (psf->file.filedes == -1 && g_opened == 0)) /*@C16.failed_open_leaves_no_descriptor*/ /*@C15.failed_open_leaves_no_descriptor*/
+;
+int psf_set_stdio (SF_PRIVATE *psf)
+__CPROVER_requires (__CPROVER_is_fresh (psf, sizeof (SF_PRIVATE)) && psf->file.mode == vin_fmode && psf->file.filedes == vin_filedes)
+__CPROVER_assigns (psf->file.filedes, psf->filelength)
+__CPROVER_ensures (vin_fmode == SFM_READ ==> (__CPROVER_return_value == 0 && psf->file.filedes == 0)) /*@C14.stdin_for_reading*/
+__CPROVER_ensures (vin_fmode == SFM_WRITE ==> (__CPROVER_return_value == 0 && psf->file.filedes == 1)) /*@C14.stdout_for_writing*/
+__CPROVER_ensures ((vin_fmode != SFM_READ && vin_fmode != SFM_WRITE) ==> (__CPROVER_return_value != 0 && psf->file.filedes == vin_filedes)) /*@C09.pipes_cannot_be_opened_read_write*/
+;
+
 static void keep (void) { void *k [] = { (void *) vio_read_c, (void *) vio_write_c, (void *) vio_seek_c, (void *) vio_tell_c } ; (void) k ; }
 
 void h_fread (void)
@@ -221,6 +238,8 @@ void h_fclose (void)
 	REACH (g_close_calls == 1, "descriptor closed") ;
 	CANARY () ;
 }
+void h_fopen (void) { SF_PRIVATE *psf ; int m ; vin_fmode = m ; g_opened = 0 ; int r = psf_fopen (psf) ; REACH (r == 0, "opened") ; REACH (r == SFE_SYSTEM, "system error") ; CANARY () ; }
+void h_set_stdio (void) { SF_PRIVATE *psf ; int m, f ; vin_fmode = m ; vin_filedes = f ; psf_set_stdio (psf) ; CANARY () ; }
 void h_file_valid (void) { SF_PRIVATE *psf ; psf_file_valid (psf) ; CANARY () ; }
 void h_is_pipe (void) { SF_PRIVATE *psf ; int r = psf_is_pipe (psf) ; REACH (r == SF_TRUE, "descriptor is a pipe or cannot be examined") ; CANARY () ; }
 void h_get_filelen (void) { SF_PRIVATE *psf ; void *k [] = { (void *) vio_len_c } ; (void) k ; sf_count_t r = psf_get_filelen (psf) ; REACH (r > 0, "length known") ; CANARY () ; }
